@@ -52,7 +52,7 @@ Proof.
   replace (0 <? 0) with false by reflexivity. rewrite andb_false_r. reflexivity.
 Qed.
 
-(* the model's assignment satisfies the C04 predicate: breaks only when forced or needed, always when forced *)
+(* the model's assignment satisfies the C04 predicate: breaks only when forced or needed, always when forced or needed *)
 Lemma assign_loop_check avail np ms page cur :
   check_assign_from avail np ms (assign_loop avail np ms false page cur) page cur = true.
 Proof.
@@ -63,10 +63,7 @@ Proof.
   destruct ((force || over) && (0 <? cur)) eqn:E.
   - replace (page + 1 =? page) with false by (symmetry; apply Z.eqb_neq; lia).
     rewrite Z.eqb_refl. apply andb_prop in E as [E1 _]. rewrite E1. cbn [andb]. apply IH.
-  - rewrite Z.eqb_refl.
-    replace (force && (0 <? cur)) with false.
-    + cbn [negb andb]. apply IH.
-    + symmetry. destruct force; cbn in *; [exact E|reflexivity].
+  - rewrite Z.eqb_refl. cbn [negb andb]. apply IH.
 Qed.
 
 Theorem assign_satisfies_check nrow add np ms :
